@@ -32,3 +32,8 @@ const VerifMaxHSMSMsgLen = maxHSMSMsgLen
 
 // VerifDecodeOwnedFrame exposes decodeOwnedFrame (the recv path's decoder).
 func VerifDecodeOwnedFrame(owned []byte) (Message, error) { return decodeOwnedFrame(owned) }
+
+// VerifFrameBuffersRaw returns the send path's frame buffers WITHOUT copying them: the slices alias whatever
+// storage buildFrameBuffers used, so a harness can build the frames of several messages first and read them
+// afterwards (what overlapping senders do).
+func VerifFrameBuffersRaw(msg Message) [][]byte { return buildFrameBuffers(msg) }
